@@ -116,592 +116,563 @@ float{
     uint32
 crc, charz msg_type , u128 crc , string stringy
 `" ++ [233]%N ++ runes_of_ascii "`, }")).
-Eval vm_compute in ("<<<M257>>>" ++ check (runes_of_ascii "options
-{
-BodyLength
-=3 ;// " ++ [128512]%N ++ runes_of_ascii " emoji
-T = ""packet""
-// @lengthOf(
-// trailing space 
-;
-// c
-// trailing space 
-crc = true ;
-falsey= '\x00'/// triple
-;
-} root packet A
-    {@leftPad (
-'0' )	char[
-65535 ] Header  `" ++ [233]%N ++ runes_of_ascii "` ,
-@rightPad( '0' ) //
-a1 @lengthOf( msg_type ) , @lengthOf( rootA )
-    match
-_x as //x
-stringy {""CRC32"" : chars, 3// `tick` ""quote"" 'q'
-:float , 255	:	asx // `tick` ""quote"" 'q'
-, 10  : tag ,//
-} ,
-    @calculatedFrom(
-    """ ++ [128512]%N ++ runes_of_ascii """	) u32 u8x`crlf
-line` , repeat char[]	asx `a\` , @rightPad ( '0'	)match f32a  as Packet
-    { [ 255 , ""CRC32"" , 007
-, ""1"",""packet"" , 00 ,
-    4294967296 ]	: calculatedFrom , ""packet"" :
-    falsey, ""a\""b"": body , 7// a // b
-: Packet // " ++ [128512]%N ++ runes_of_ascii " emoji
-0123456789 :	i64_ ,
-    // a // b
-    [4294967296 , 0123456789 ]  : // `tick` ""quote"" 'q'
-options1	} ,crc /// triple
-@lengthOf(	Foo
-    )
-    ,
-@calculatedFrom( ""{,}"")@lengthOf(metadata ) @lengthOf( i8i8
-)int64 options1 @calculatedFrom(""CRC32"" )
-    `line1
-line2` , // @lengthOf(
-} packet a1 // `tick` ""quote"" 'q'
-{ match lengthOf//
-as x_y_z
-{ ""it's"" :matchKey
-//
-// @lengthOf(
-, 10 :
-Packet , [ //x
-""abc""
-    ]// a // b
-: A 10 //x
-: metadata
-    ,
-    } ,
-}MetaData
-    body { char string_, char[]
-x, len Pad , string
-    leftPad , } // trailing space ")).
-Eval vm_compute in ("<<<M1517>>>" ++ check (runes_of_ascii "  root packet
-asx {
-leftPad {  u128  @calculatedFrom(	""1"")	, 	 //x
-} ,
-lengthOf // packet A { u8 x, }
-@calculatedFrom( 
-""" ++ [128512]%N ++ runes_of_ascii """
-
-    )`a\` 
-,
-	i64 // `tick` ""quote"" 'q'
-  Packet  @lengthOf(
-
-    calculatedFrom
-	)
-    , @calculatedFrom(
-	""" ++ [233]%N ++ runes_of_ascii "t" ++ [233]%N ++ runes_of_ascii """ 
-)
-
-    stringy a1 `doc` 	 // `tick` ""quote"" 'q'
-  ,
-
-@rightPad(
-// a // b
-  )
-    // c
-  a1
-    `a\` , char  Header
-
-@lengthOf(
-	x
-)	`say ""hi""`	,
-    uint8x 
-Z9_
-`tab	here` ,
-}
-options
-{calculatedFrom // packet A { u8 x, }
-
-= 0 
-} 
-packet
-    metadata
-
-{
-    @leftPad
-( '\x00'  ) f32
-pack
-
-//	t
-  //
-		, 
-@tag(
-	65535
-
-    ) u32
-uint8x@lengthOf(repeatCount
-)
-    ``  , MetaDataX
-{
-repeat
-
-options1 ,match
-matchKey
-
-as
-len
-	{ """ ++ [128512]%N ++ runes_of_ascii """
-
-    :
-u8x 
-,
-1
-
-    :
-	zchar
-,/// triple
-    [""a\\""
-, ""x y""
-]
-	:  charz
-
-0
-	:x_y_z
-//
-  ,	[	// trailing space 
-4294967296 	 // `tick` ""quote"" 'q'
-      ] :	asx,  [  /// triple
-  ""a\""b"", ""\n""
-
-    ,""\" ++ [233]%N ++ runes_of_ascii """	, 10
-
-] :
-	_x  ,},uint8
-	metadata
-	@lengthOf( 
-float
-	) , zchar[ 255]  i8i8 ,
+Eval vm_compute in ("<<<M386>>>" ++ check (runes_of_ascii "options {
+    StringPrefixLenType = u16;
+    ArrayPrefixLenType = u16;
 }
 
-,
-
+packet SampleBinary {
+    uint16 MsgType `" ++ [28040; 24687; 31867; 22411]%N ++ runes_of_ascii "`,
+    u16 BodyLenght @lengthOf(Body) `" ++ [28040; 24687; 20307; 38271; 24230]%N ++ runes_of_ascii "`,
+    match MsgType as Body {
+        1 : Logon,
+        2 : Logout,
+        3 : Heartbeat,
+        4 : RiskControlRequest,
+        5 : RiskControlResponse,
+    },
+    @calculatedFrom(""CRC32"")
+    u32 Ckecksum `" ++ [26657; 39564; 21644]%N ++ runes_of_ascii "`,
 }
-
-root	packet	f32a
-	{  }")).
-Eval vm_compute in ("<<<M1461>>>" ++ check (runes_of_ascii "  // packet A { u8 x, }
-	root packet	leftPad
-{ 
-@calculatedFrom(
-
-//x
-  	""`tick`""
-	)
-@rightPad
-
-    ( ) 
-// " ++ [128512]%N ++ runes_of_ascii " emoji
-
-  string_
-
-// `tick` ""quote"" 'q'
-// a // b
-	@lengthOf( tag
-)`a\`
-
-,  i64 T`" ++ [233]%N ++ runes_of_ascii "` , 	 //	t
-	  }
-
-packet
-    Pad// @lengthOf(
-		{  @lengthOf( 
-float
-	) 
-char[]
-	x
-    @calculatedFrom(
-
-    ""a\""b"" )
-	,// trailing space 
-
-@tag(	0 // " ++ [128512]%N ++ runes_of_ascii " emoji
-	) // " ++ [27880; 37322]%N ++ runes_of_ascii "
-repeatCount // packet A { u8 x, }
-    	,repeat
-	rootA 
-{
-_x	, zchar[
-3 ] 
-roots
-/// triple
-  	`crlf
-line` , }
-
-    , 
-    /// triple
-	// a // b
-
-match 
-metadata
-as BodyLength	{
-    [
-// c
-  10
-
-,
-	10
-	, ""a\""b"",
-    """"
-    ,""\n""
-	, ""a\\""
-
-, 
-4294967296	]  :u, } , repeat
-    i64_ Packet
-`" ++ [28040; 24687; 31867; 22411]%N ++ runes_of_ascii "`	,  @tag( 	 // packet A { u8 x, }
-  	65535) char[] 
-float
-
-`it's`,	char[
-7
-]x@calculatedFrom(	""{,}"" )
-,}MetaData
-
-leftPad // a // b
-    {body
-
-    rootA
-`crlf
-line`,
-int64
-
-    msg_type `doc`,	// @lengthOf(
-  }
-
-")).
-Eval vm_compute in ("<<<M371>>>" ++ check (runes_of_ascii "root
-    packet
-packetx
-    {
-    @tag( 0) char[00 ] Z9_
-    ,
-    // a // b
-    falsey
-    // c
-    { match
-    x as options1 { [//	t
-42 ,
-    007 ]:
-    uint8x } , uint8 falsey `crlf
-line` , }
-, f64 Pad
-, @tag(7  ) string Logon// " ++ [27880; 37322]%N ++ runes_of_ascii "
-`a\`, @lengthOf(
-lengthOf//	t
-) char[
-3
-    ]
-// " ++ [27880; 37322]%N ++ runes_of_ascii "
-//
-calculatedFrom @calculatedFrom(
-""" ++ [28040; 24687]%N ++ runes_of_ascii """
-)
-, char[]
-    T , //x
-@tag(
-42 ) @leftPad ( )
-    char[]trueish
-@calculatedFrom(""`tick`"" ) ,match
-    // `tick` ""quote"" 'q'
-    uint8x as pack { [
-    ""abc"",
-    ""1"" ,""packet""
-,
-// `tick` ""quote"" 'q'
-// `tick` ""quote"" 'q'
-1,
-    ""a\""b""]: As	, """ ++ [28040; 24687]%N ++ runes_of_ascii """ :
-    trueish ,} ,
-}
-packet/// triple
-charz
-{
-    repeat
-Z9_ { Pad  {match len as string_{
-    // a // b
-    4294967296
-    : msg_type , [""// no comment""
-    ] :u
-    ,
-} ,} , zchar[
-    65535
-] As  @lengthOf(//x
-string_
-)
-,
-} ,
-    }")).
-Eval vm_compute in ("<<<M90>>>" ++ check (runes_of_ascii "root packet lengthOf
-{ // a // b
-match i64_  as options1{	""// no comment"":
-    // packet A { u8 x, }
-    f32a
-    // @lengthOf(
-    , 65535 :
-    falsey, } ,  @tag(
-0
-)  char[]
-    body
-@lengthOf(  lengthOf ) ,	u64 string_ `it's`,@lengthOf( string_ // packet A { u8 x, }
-)crc {repeat
-zchar[ 3
-] u	,	pack // packet A { u8 x, }
-`a\`// trailing space 
-,char[] crc `` , } //x
-,int16 // packet A { u8 x, }
-metadata `line1
-line2`, }root	packet //	t
-leftPad
-{ repeat	zchar[
-4294967296 //x
-] MetaDataX
-    ,@tag( 10 // `tick` ""quote"" 'q'
-) match  tag as falsey
-{ 7:
-    BodyLength
-, 0 : i64_ ,} , repeat char[ 255
-    // @lengthOf(
-    ] A
-,
-char[ 7]
-trueish @calculatedFrom(	""a\\"" ) `two words`
-// " ++ [128512]%N ++ runes_of_ascii " emoji
-//	t
-, i16
-Logon, }
-")).
-Eval vm_compute in ("<<<M243>>>" ++ check (runes_of_ascii "// a // b
-packet stringy { @tag( 3 ) // trailing space 
-i64
-    len
-,@calculatedFrom( ""1""  ) char[
-0 ]
-x @lengthOf(Foo )
-,@calculatedFrom( """" )
-body
-// c
-// " ++ [128512]%N ++ runes_of_ascii " emoji
-@lengthOf(
-calculatedFrom )`line1
-line2`
-    , @calculatedFrom( ""it's"" // " ++ [128512]%N ++ runes_of_ascii " emoji
-)// packet A { u8 x, }
-match falsey
-    // packet A { u8 x, }
-    as u8x {[
-""" ++ [128512]%N ++ runes_of_ascii """
-    , // a // b
-42 , 1 ,10 ]
-: Header , } ,
-// trailing space 
-// `tick` ""quote"" 'q'
-} MetaData// " ++ [128512]%N ++ runes_of_ascii " emoji
-stringy{ f32a
-    u128 `{ , }` , char[ // a // b
-10 ]u128	, chars _x , zchar[ 65535 // trailing space 
-]/// triple
-falsey
-    `{ , }`
-    , _x i64_
-, int32
-Packet
-`crlf
-line` , } MetaData lengthOf
-{
-    }
-// trailing space 
-")).
-Eval vm_compute in ("<<<M366>>>" ++ check (runes_of_ascii "packet
-// @lengthOf(
-//	t
-f32a { char[] Header`" ++ [233]%N ++ runes_of_ascii "` ,  @tag( 00
-) zchar[ 255  ] int
-    , @lengthOf(	trueish)
-x @calculatedFrom( """ ++ [128512]%N ++ runes_of_ascii """
-    )`say ""hi""` , @leftPad
-    (	'\x00'
-) @lengthOf( //	t
-u128 )//	t
-repeat BodyLength ,
-falsey @lengthOf( uint8x ), //
-@lengthOf( rootA) repeat uint8 T  `a\` , repeat  string
-lengthOf
-`it's` , @leftPad(
-    '\x00' )
-zchar[ 42
-// packet A { u8 x, }
-// a // b
-] u`say ""hi""` ,// a // b
-repeat packetx
-// a // b
-// packet A { u8 x, }
-{
-Pad  f32a
-,// trailing space 
-i8i8 msg_type `say ""hi""` , i64_ repeatCount , char[]chars , } ,}MetaData _x
-{  x matchKey `" ++ [28040; 24687; 31867; 22411]%N ++ runes_of_ascii "`, }")).
-Eval vm_compute in ("<<<M66>>>" ++ check (runes_of_ascii "packet	int {// @lengthOf(
-repeat
-string
-    BodyLength
-    `a\`
-    , } packet repeatCount { @lengthOf( x_y_z ) crc ,
-    match Packet as
-Z9_{""// no comment"" :MetaDataX ,
-//	t
-// a // b
-[  00, 7]: chars ,""CRC32""
-    : zchar 42: stringy //	t
-, [ ""a\""b"",""1""// a // b
-] : u ,
-},
-@rightPad
-( ' ' )
-@lengthOf( i64_//x
-)
-    repeat
-f64
-x `two words`
-    , @calculatedFrom(""`tick`""	) int64 falsey @lengthOf(//x
-u128 ) , charz
-    {
-    //x
-    char[]
-    T
-// c
-// " ++ [27880; 37322]%N ++ runes_of_ascii "
-`a\` ,
-}
-,@lengthOf(
-    u8x)string_, repeat
-// " ++ [128512]%N ++ runes_of_ascii " emoji
-//	t
-x
-    , }
-")).
-Eval vm_compute in ("<<<M1468>>>" ++ check (runes_of_ascii "// top
-options {
-    // c1
-    LittleEndian = true;// c5a
-}// c6
 
 packet Logon {
-    u8 x,// c12
-}// c13a
+    @leftPad('0')
+    char[10] UserName `" ++ [29992; 25143; 21517]%N ++ runes_of_ascii "`,
+    string Password `" ++ [23494; 30721]%N ++ runes_of_ascii "`,
+    uint64 ClientId `" ++ [23458; 25143; 31471]%N ++ runes_of_ascii "ID`,
+    u16 HeartbeatInterval `" ++ [24515; 36339; 38388; 38548]%N ++ runes_of_ascii "`,
+}
 
-// c13b
 packet Logout {
-    // c16
-    u16 reason,// c19a
+    @rightPad('0')
+    char[10] UserName `" ++ [29992; 25143; 21517]%N ++ runes_of_ascii "`,
+    uint64 ClientId `" ++ [23458; 25143; 31471]%N ++ runes_of_ascii "ID`,
 }
 
-// c20
-root packet Frame {
-    // c24
-    u16 Kind,// c27a
-    // c27b
-    u16 Kind2,
-    match Kind as Body {
-        // c35
-        1 : Logon,
-        // c39
-        [2, 3, 4] : Logout,
-        // c49
-        100 : Logon,
+packet Heartbeat {
+}
+
+packet RiskControlRequest {
+    string UniqueOrderId `" ++ [21807; 19968; 35746; 21333; 21495]%N ++ runes_of_ascii "`,
+    char[16] ClOrdID `" ++ [23458; 25143; 35746; 21333; 21495]%N ++ runes_of_ascii "`,
+    char[3] MarketID `" ++ [24066; 22330]%N ++ runes_of_ascii "id`,
+    char[12] SecurityID `" ++ [35777; 21048; 20195; 30721]%N ++ runes_of_ascii "`,
+    char Side `" ++ [20080; 21334; 26041; 21521]%N ++ runes_of_ascii "`,
+    char OrderType `" ++ [35746; 21333; 31867; 22411]%N ++ runes_of_ascii "`,
+    u64 Price `" ++ [20215; 26684]%N ++ runes_of_ascii "`,
+    u32 Qty `" ++ [25968; 37327]%N ++ runes_of_ascii "`,
+    repeat string ExtraInfo `" ++ [38468; 21152; 20449; 24687]%N ++ runes_of_ascii "`,
+    repeat SubOrder {
+        char[16] ClOrdID `" ++ [23376; 35746; 21333; 21495]%N ++ runes_of_ascii "`,
+        u64 Price `" ++ [23376; 35746; 21333; 20215; 26684]%N ++ runes_of_ascii "`,
+        u32 Qty `" ++ [23376; 35746; 21333; 25968; 37327]%N ++ runes_of_ascii "`,
     },
-    match Kind2 as Trailer {
-        // c60
-        0 : Logout,
-    },
-}// c67")).
-Eval vm_compute in ("<<<M14>>>" ++ check (runes_of_ascii "MetaData u128
-    {// a // b
-string zchar //x
-`two words` ,u16 packetx
-`a\` , char[ 1 ] Logon	, len crc, char[
-7]i8i8,char[]calculatedFrom,
-} // @lengthOf(
-MetaData u
-    { u// " ++ [128512]%N ++ runes_of_ascii " emoji
-u128
-, //	t
-}root packet metadata { }options	{ matchKey =
-    255
-;
-x_y_z
-= 007 crc=int16
-; zchar =// c
-char[42 ]
-; int
-= true ;
-} options  {
-Header = """ ++ [128512]%N ++ runes_of_ascii """
-;
-len
-    = ' ' ; matchKey= """" ;MetaDataX =' '
-; o
-    = '\x00' ; }
-/// triple
+}
+
+packet RiskControlResponse {
+    string UniqueOrderId `" ++ [21807; 19968; 35746; 21333; 21495]%N ++ runes_of_ascii "`,
+    i32 Status `" ++ [29366; 24577]%N ++ runes_of_ascii "`,
+    string Msg `" ++ [32467; 26524; 20449; 24687]%N ++ runes_of_ascii "`,
+    repeat Detail,
+}
+
+packet Detail {
+    string RuleName `" ++ [35268; 21017; 21517; 31216]%N ++ runes_of_ascii "`,
+    u16 Code `" ++ [21407; 22240; 20195; 30721]%N ++ runes_of_ascii "`,
+}")).
+Eval vm_compute in ("<<<M1771>>>" ++ check (runes_of_ascii "
+packet
+MetaDataX{
+    metadata
+trueish`" ++ [233]%N ++ runes_of_ascii "` 
+    //x
+      //x
+,	// trailing space 
+  @calculatedFrom( ""`tick`"")
+	uint8x
+// c
+	@calculatedFrom(
+    """ ++ [128512]%N ++ runes_of_ascii """
+    )`{ , }` , 
+@calculatedFrom(
+    ""a\""b""
+)	// packet A { u8 x, }
+
+match
+	Packet  as
+	body {  3
+:
+    repeatCount , ""x y"" 
+    /// triple
+  :lengthOf // `tick` ""quote"" 'q'
+	  4294967296 : 
+packetx	, [  ""abc""
+    ,  ""// no comment""
+    ,
+    ""abc""
+	, 
+""\n"" 	 //	t
+    ,
+    ""1"" 
+]
+    :
+    u128 [
+
+00 
+,
+65535 
+,	""x y""
+    ,
+	""{,}""
+	]: calculatedFrom  ,	7
+	:i8i8
+	}
+    , u8x
+, match
+
+    int 
+as
+matchKey {[
+1	,
+""CRC32""
+    ]
+// trailing space 
+  : 	 // @lengthOf(
+
+  asx
+,	} ,
+	@lengthOf(  // " ++ [128512]%N ++ runes_of_ascii " emoji
+    	a1  )
+    string
+x`it's`,repeat  // @lengthOf(
+    char matchKey 
+, 
+	// a // b
+      @leftPad // trailing space 
+()
+    @rightPad
+( )
+	match	metadata
+    as Packet  {
+    [
+65535  ]
+	:
+
+Header  ,
+}
+
+,@tag(
+
+255 
+) 
+zchar[3]
+crc 
+`u8 x,` , 
+}
+
+MetaData
+rootA // trailing space 
+{ i8i8
+Pad,
+    int8  packetx  `{ , }`,
+	int8	stringy ,
+    // `tick` ""quote"" 'q'
+    	body _x , body
+
+o
+    , 
+}
 ")).
-Eval vm_compute in ("<<<M1843>>>" ++ check (runes_of_ascii "MetaData Pad {
-    i16 repeatCount,
-    f32 pack `a\`,
+Eval vm_compute in ("<<<M1462>>>" ++ check (runes_of_ascii "root packet repeatCount {
+    @lengthOf(u8x)
+    @calculatedFrom(""1"")
+    @tag(007)
+    repeat zchar[42] Header `" ++ [28040; 24687; 31867; 22411]%N ++ runes_of_ascii "`,
+    match options1 as asx {
+        255 : roots,
+    },// a // b
+    Header @lengthOf(options1) ``,
+    Header @lengthOf(len) `{ , }`,
+    o matchKey `u8 x,`,
 }
 
-packet f32a {
-    @lengthOf(metadata)
-    match msg_type as matchKey {
-        00 : rootA,
+packet packetx {
+    zchar[255] crc,
+}
+
+packet Logon {
+    body {
+        float {
+            repeat Logon trueish,
+        },
     },
-    @rightPad()
-    match repeatCount as len {
-        [10, ""x y""] : As,
-        42 : i64_,
-        """ ++ [128512]%N ++ runes_of_ascii """ : BodyLength,
-        7 : f32a,
+    @calculatedFrom(""`tick`"")
+    repeat char[0] f32a,
+    match body as float {
+        [65535, """ ++ [28040; 24687]%N ++ runes_of_ascii """] : calculatedFrom,
     },
-    @lengthOf(BodyLength)
-    repeat Foo `line1
-        line2`,
-}// @lengthOf(")).
-Eval vm_compute in ("<<<M1234>>>" ++ check (runes_of_ascii "// top
+    u32 float @calculatedFrom(""" ++ [233]%N ++ runes_of_ascii "t" ++ [233]%N ++ runes_of_ascii """),
+    string body @lengthOf(len) `
+        `,
+    u8x @calculatedFrom(""a\""b""),//	t
+    float64 options1 @calculatedFrom(""" ++ [128512]%N ++ runes_of_ascii """) `it's`,
+    //x
+    // trailing space 
+    match crc as chars {
+        3 : options1,
+        [10] : _x,
+        [""{,}""] : options1,
+        [""CRC32"", ""a\\"", ""a\\"", ""packet"", 7] : As,
+    },
+    i16 msg_type,
+}")).
+Eval vm_compute in ("<<<M1368>>>" ++ check (runes_of_ascii "options {
+    FixedStringPadFromLeft = true;
+    FixedStringPadChar = '0';
+}
+packet Leg {
+    repeat InSym93 {
+        zchar[3] Acct,
+        string Side2,
+        i32 Flags,
+        f32 Note,
+        i32 msgKind,
+    },
+    f64 Note,
+    uint16 Px,
+}
+packet Quote {
+    zchar[2] OrderId,
+}
+packet Ack {
+    repeat string lastPx,
+    zchar[4] price,
+    uint32 OrderId,
+    Quote,
+    int8 Acct,
+}
+packet Fill {
+    repeat Leg,
+    @rightPad('0') char[11] Note,
+    f64 Px,
+    @rightPad('\x00') char[5] Flags,
+    zchar[9] x,
+    string msgKind,
+}
+root packet Order {
+    Leg,
+    repeat Ack,
+    @rightPad('\x00') char[3] Side2,
+    repeat char[1] seqNo,
+    u16 clOrdID,
+    match clOrdID as Body {
+        198 : Leg,
+        23 : Quote,
+        13 : Ack,
+        159 : Fill,
+    },
+    u32 venue @calculatedFrom(""CRC32""),
+}
+")).
+Eval vm_compute in ("<<<M1813>>>" ++ check (runes_of_ascii "// top
+options {
+    // c1
+    StringPrefixLenType = u8;// c5a
+    // c5b
+    ArrayPrefixLenType = u8;// c9
+    FixedStringPadFromLeft = false;// c13
+    FixedStringPadChar = ' ';// c17a
+    // c17b
+}
+
+// c18
+packet Ack {
+    // c21
+    char[] tag7,
+}
+
+// c25
+packet Reject {
+    InSym61 {
+        // c30
+        repeat Ack,
+        zchar[4] f1,
+    },
+}// c41
+
+packet Logout {
+    // c44
+    char[4] clOrdID,// c49
+}
+
+// c50
+root packet Cancel {
+    @leftPad(' ')
+    char[10] price,
+    // c63
+    u8 x,
+    u32 venue @lengthOf(Body),// c72
+    match x as Body {
+        // c77
+        [92, 175] : Logout,
+        26 : Reject,
+        // c89a
+        // c89b
+        144 : Ack,
+    },// c95
+    u16 count @calculatedFrom(""CRC32""),
+}")).
+Eval vm_compute in ("<<<M288>>>" ++ check (runes_of_ascii "// packet A { u8 x, }
+MetaData
+    _x
+{ //
+char[] len
+    ,}options
+// @lengthOf(
+//
+{ repeatCount =""""
+    ; }// c
+root packet chars {
+    char[ 255
+]u8x,	repeat
+/// triple
+// c
+string repeatCount
+`" ++ [28040; 24687; 31867; 22411]%N ++ runes_of_ascii "` ,
+repeat zchar[ 10
+]
+string_ , @tag( // trailing space 
+255
+    ) i8i8{// packet A { u8 x, }
+options1
+calculatedFrom `u8 x,`
+,
+    i64
+len,
+    roots // c
+{ // @lengthOf(
+repeat
+    // a // b
+    i64_ zchar //
+,
+    } ,
+    }
+, match chars as Packet	{
+""a\""b"": Pad
+,[ ""{,}""
+    ]
+:
+calculatedFrom // a // b
+,
+""" ++ [233]%N ++ runes_of_ascii "t" ++ [233]%N ++ runes_of_ascii """
+//x
+// `tick` ""quote"" 'q'
+: uint8x ,[ // packet A { u8 x, }
+""`tick`"" ,0
+    , 42
+    ] : _x[ 0123456789	, ""\" ++ [233]%N ++ runes_of_ascii """
+    ] :
+i8i8,	} ,	}
+")).
+Eval vm_compute in ("<<<M1422>>>" ++ check (runes_of_ascii "root packet asx {
+    tag body `u8 x,`,
+}
+
+packet string_ {
+    @lengthOf(len)
+    repeat zchar[42] u8x,
+    zchar[0] asx,
+}
+
+packet int {
+    repeat crc {
+        zchar float,
+        match i8i8 as rootA {
+            255 : lengthOf,
+            1 : lengthOf,
+            3 : roots,
+            3 : uint8x,
+            0 : As,
+            ""`tick`"" : repeatCount,
+        },
+        repeat char[] falsey,
+        u64 lengthOf,
+    },
+    @lengthOf(crc)
+    lengthOf i64_,
+    leftPad `crlf
+    line`,
+}
+
+root packet zchar {
+    f32 _x @calculatedFrom(""a\\""),
+}
+
+MetaData chars {
+    //
+}")).
+Eval vm_compute in ("<<<M65>>>" ++ check (runes_of_ascii "packet leftPad {
+match A as x {""`tick`""
+    : MetaDataX //
+, [""it's""
+,""\n"" ,
+""" ++ [28040; 24687]%N ++ runes_of_ascii """ ] :
+string_ , 0123456789 : o ,
+[
+""{,}"", ""x y"" ]
+:uint8x	} , char[3	] msg_type// " ++ [128512]%N ++ runes_of_ascii " emoji
+@lengthOf( u
+//	t
+// " ++ [27880; 37322]%N ++ runes_of_ascii "
+)`two words` ,
+    // c
+    repeat
+    int
+// packet A { u8 x, }
+// @lengthOf(
+Foo ,
+@rightPad
+(
+    )
+@rightPad
+( ' ' )
+    Foo charz`{ , }`, }
+MetaData A {
+zchar[
+0 ]A `{ , }`
+    , float32 a1
+    //
+    ,
+    char[]  pack , /// triple
+string body `" ++ [233]%N ++ runes_of_ascii "` , string chars `doc` , int _x`two words`
+,} options { Z9_ =
+    uint16 ; }")).
+Eval vm_compute in ("<<<M1237>>>" ++ check (runes_of_ascii "// top
 options // c0
 { // c1
-f32a // c2
+zchar // c2
 = // c3
-0 // c4
-} // c5
-packet // c6
-trueish // c7
-{ // c8
-} // c9
-MetaData // c10
-_x // c11
-{ // c12
-char[ // c13
-0123456789 // c14
-] // c15
-zchar // c16
-, // c17
-string // c18
-crc // c19
-, // c20
-char[ // c21
-1 // c22
-] // c23
-options1 // c24
-, // c25
-uint8 // c26
-repeatCount // c27
-, // c28
-} // c29
+true // c4
+; // c5
+Pad // c6
+= // c7
+char[ // c8
+00 // c9
+] // c10
+a1 // c11
+= // c12
+uint32 // c13
+BodyLength // c14
+= // c15
+true // c16
+; // c17
+} // c18
+root // c19
+packet // c20
+T // c21
+{ // c22
+@lengthOf( // c23
+repeatCount // c24
+) // c25
+@tag( // c26
+1 // c27
+) // c28
+@calculatedFrom( // c29
+""a	b"" // c30
+) // c31
+string // c32
+stringy // c33
+@calculatedFrom( // c34
+""\n"" // c35
+) // c36
+`u8 x,` // c37
+, // c38
+} // c39
 ")).
-Eval vm_compute in ("<<<M1367>>>" ++ check (runes_of_ascii "options {
+Eval vm_compute in ("<<<M1113>>>" ++ check (runes_of_ascii "// top
+packet // c0
+float // c1
+{ // c2
+@rightPad // c3
+( // c4
+) // c5
+rootA // c6
+@lengthOf( // c7
+trueish // c8
+) // c9
+, // c10
+stringy // c11
+@lengthOf( // c12
+matchKey // c13
+) // c14
+, // c15
+char[ // c16
+4294967296 // c17
+] // c18
+pack // c19
+@lengthOf( // c20
+uint8x // c21
+) // c22
+, // c23
+} // c24
+root // c25
+packet // c26
+trueish // c27
+{ // c28
+repeat // c29
+uint64 // c30
+u128 // c31
+`line1
+line2` // c32
+, // c33
+} // c34
+")).
+Eval vm_compute in ("<<<M1332>>>" ++ check (runes_of_ascii "options {
+    LittleEndian = false;
+    StringPrefixLenType = u8;
+    ArrayPrefixLenType = u64;
+    FixedStringPadFromLeft = false;
+    FixedStringPadChar = ' ';
+}
+packet Reject {
+    repeat char[4] seqNo,
+    string Px,
+}
+root packet Trade {
+    @rightPad('0') char[2] msgKind,
+    repeat f64 price,
+    InAcct79 {
+        repeat Reject,
+        zchar[7] OrderId,
+    },
+    Reject,
+}
+")).
+Eval vm_compute in ("<<<M248>>>" ++ check (runes_of_ascii "packet a1
+    { char[]	charz @calculatedFrom(
+    //x
+    """ ++ [28040; 24687]%N ++ runes_of_ascii """)
+,
+    uint8x`crlf
+line`
+    , uint64 T  `line1
+line2` ,
+    @leftPad (
+'0')
+// a // b
+/// triple
+@calculatedFrom( ""abc"" )
+@tag( 3 ) match
+int // a // b
+as len
+{ 0	:  chars, [ 10, ""a\\"",
+1 ,0 ,10 , 0
+    ] : body, 007 :
+    // a // b
+    rootA // a // b
+, } , falsey options1 , }
+")).
+Eval vm_compute in ("<<<M1385>>>" ++ check (runes_of_ascii "options {
     LittleEndian = true;
 }
 packet Logon {
@@ -711,8 +682,8 @@ packet Logout {
     u16 reason,
 }
 root packet Frame {
-    u16 Kind,
-    u16 Kind2,
+    u64 Kind,
+    u64 Kind2,
     match Kind as Body {
         1 : Logon,
         [2, 3, 4] : Logout,
@@ -723,60 +694,94 @@ root packet Frame {
     },
 }
 ")).
-Eval vm_compute in ("<<<M287>>>" ++ check (runes_of_ascii "root // trailing space 
-packet int {
-    f32a @calculatedFrom(""packet"" )
-    `
-`
-    , } options
-{
-    rootA
-    // @lengthOf(
-    =
-""\" ++ [233]%N ++ runes_of_ascii """; }
-    packet
-i8i8 {
-    // trailing space 
-    uint8
-    uint8x
-    @lengthOf( string_ ) //	t
-, i32 tag //	t
-@lengthOf(
-Logon )  , }")).
-Eval vm_compute in ("<<<M139>>>" ++ check (runes_of_ascii "packet//x
-x_y_z {rootA @lengthOf( o ) `two words` ,} MetaData f32a{
-trueish
-    // packet A { u8 x, }
-    x , }
-    MetaData body
-    { u128 pack , f64
-    // @lengthOf(
-    float	, char[ 65535
-//	t
-/// triple
-] tag `" ++ [233]%N ++ runes_of_ascii "`// c
-,  } // " ++ [128512]%N ++ runes_of_ascii " emoji")).
-Eval vm_compute in ("<<<M350>>>" ++ check (runes_of_ascii "MetaData Pad
-{ i64 Packet `{ , }`
-    , // `tick` ""quote"" 'q'
-repeatCount  trueish // packet A { u8 x, }
-`say ""hi""`	, f32 pack`// not a comment` ,// `tick` ""quote"" 'q'
-u32
-calculatedFrom ,char //	t
-zchar
-,}
+Eval vm_compute in ("<<<M1613>>>" ++ check (runes_of_ascii "packet FooBar // c1
+		{
+	u8
+
+    a
+, 
+    // c5
+    }	// c6
+  packet
+    foo_bar 	 // c8a
+  	// c8b
+  {
+
+// c9
+u16
+        // c10
+
+b
+
+,  // c12a
+  // c12b
+    }  // c13
+
+root// c14
+      packet R {  // c17a
+	  // c17b
+
+FooBar ,  
+  // c19
+
+	foo_bar 	 // c20
+	,  }")).
+Eval vm_compute in ("<<<M234>>>" ++ check (runes_of_ascii "//	t
+options{
+    chars=true As= char[]
+// trailing space 
+// " ++ [128512]%N ++ runes_of_ascii " emoji
+; /// triple
+x_y_z	= 7; // " ++ [27880; 37322]%N ++ runes_of_ascii "
+i8i8 = true packetx = /// triple
+' ' } root packet	x_y_z {repeat
+    char[
+    42
+    //x
+    ] //	t
+Pad,
+    }
+// packet A { u8 x, }
 ")).
-Eval vm_compute in ("<<<M357>>>" ++ check (runes_of_ascii "MetaData x_y_z
+Eval vm_compute in ("<<<M1303>>>" ++ check (runes_of_ascii "// top
+packet
+    // c0
+order_item // c1
+{ u8 // c3
+a // c4a
+  // c4b
+, // c5
+} root // c7
+packet
+    // c8
+new_order
+    // c9
+{ // c10
+order_item
+    // c11
+,
+    // c12
+u8 // c13a
+  // c13b
+x ,
+    // c15
+} ")).
+Eval vm_compute in ("<<<M169>>>" ++ check (runes_of_ascii "root packet
+    // `tick` ""quote"" 'q'
+    string_ { repeat
+char[00]  rootA
+    ,
+// " ++ [128512]%N ++ runes_of_ascii " emoji
+// " ++ [27880; 37322]%N ++ runes_of_ascii "
+}
+    MetaData u {i32 options1,
+}MetaData
+rootA
 {
-lengthOf // packet A { u8 x, }
-rootA , MetaDataX// " ++ [128512]%N ++ runes_of_ascii " emoji
-_x , char[ 4294967296 ] stringy , char[
-//
-// c
-007
-] u128
-, tag u8x `line1
-line2` ,  uint8 u128 , }
+u16  chars	,
+/// triple
+//x
+}
 ")).
 Eval vm_compute in ("<<<M1256>>>" ++ check (runes_of_ascii "// top
 root // c0
@@ -820,37 +825,14 @@ a1
     { } options {packetx
     = '\x00'	; u128= ""a	b""  ; }
 ")).
-Eval vm_compute in ("<<<M1895>>>" ++ check (runes_of_ascii "
+Eval vm_compute in ("<<<M275>>>" ++ check (runes_of_ascii "MetaData
+stringy { zchar[10 ] crc,  }
+    packet u128
+{ repeat uint16  BodyLength `// not a comment`, @lengthOf( falsey ) _x ,
+char[ 42 ]  i8i8	, }
 
-  packet A {  match
-k  as n
-
-{
-    [
-
-""a"" 
-, 
-""bb""
-
-    ,
-    ""c c"", ""d"" ,
-""e"" ,
-    ""f""
-
-,	""g"" ,
-""h""
-,
-    ""i"" 
-]:B
-, 
-2
-    :
-    C
-
-} 
-, }
 ")).
-Eval vm_compute in ("<<<M527>>>" ++ check (runes_of_ascii "packet uint8x
+Eval vm_compute in ("<<<M532>>>" ++ check (runes_of_ascii "packet uint8x
 { match pack
     as msg_type	{
     0123456789 :	float
@@ -859,209 +841,255 @@ Eval vm_compute in ("<<<M527>>>" ++ check (runes_of_ascii "packet uint8x
 } packet //	t
 a1
     { } options {packetx
-    = '\x00'	; u128= ""a	b""  } ;
+    = '\x00'	; u128= ""a	b""  ; )
 ")).
-Eval vm_compute in ("<<<M700>>>" ++ check (runes_of_ascii "// @lengthOf(
+Eval vm_compute in ("<<<M1819>>>" ++ check (runes_of_ascii "
+
+  MetaData
+repeatCount 	 // c
+
+{char[ 
+42	// " ++ [27880; 37322]%N ++ runes_of_ascii "
+
+	] 
+	    // " ++ [128512]%N ++ runes_of_ascii " emoji
+	MetaDataX , 
+    // @lengthOf(
+    	zchar[ 
+// " ++ [27880; 37322]%N ++ runes_of_ascii "
+//x
+  0 ]
+    asx ,}
+
+")).
+Eval vm_compute in ("<<<M705>>>" ++ check (runes_of_ascii "// @lengthOf(
 packet i8i8 { u128 o , }
-options { MetaDataX = true true;
-    BodyLength =""packet"" x_y_z= 007
-crc //x
-= ""abc"" ;
-    msg_type =
-i16 }")).
-Eval vm_compute in ("<<<M696>>>" ++ check (runes_of_ascii "// @lengthOf(
-packet i8i8 { u128 o , } }
 options { MetaDataX = true;
     BodyLength =""packet"" x_y_z= 007
 crc //x
-= ""abc"" ;
+= = ""abc"" ;
     msg_type =
 i16 }")).
-Eval vm_compute in ("<<<M715>>>" ++ check (runes_of_ascii "// @lengthOf(
-packet i8i8 { u128 o , options
-} { MetaDataX = true;
+Eval vm_compute in ("<<<M721>>>" ++ check (runes_of_ascii "// @lengthOf(
+packet i8i8 { u128 o , }
+options { MetaDataX = true;
     BodyLength =""packet"" x_y_z= 007
 crc //x
-= ""abc"" ;
-    msg_type =
+= ""abc"" msg_type
+    ; =
 i16 }")).
-Eval vm_compute in ("<<<M1792>>>" ++ check (runes_of_ascii "MetaData
-leftPad
+Eval vm_compute in ("<<<M1263>>>" ++ check (runes_of_ascii "
+packet B {u8 
+a ,
+}  root	packet P
+{
 
-{chars	MetaDataX,
-	}packet
+    u8
+K, 
+u64	L
+@lengthOf(
 
-    repeatCount{ char[	255	] 
-uint8x 
-`" ++ [233]%N ++ runes_of_ascii "` 
-  // c
-    	, 
-}
-MetaData
-pack {
-As Foo
-,}
+Body
+)	, match
+    K
+as
+
+    Body
+{ 1
+
+    : 
+B
+
+,
+}	, }
 
 ")).
-Eval vm_compute in ("<<<M1471>>>" ++ check (runes_of_ascii "packet A {
-    u8 a,
-}
+Eval vm_compute in ("<<<M1743>>>" ++ check (runes_of_ascii "
+packet
 
-packet B {
-    u16 b,
-}
+    A  {match
 
-root packet P {
-    u8 K,
-    match K as M {
-        1 : A,
-        1 : B,
-    },
-}")).
-Eval vm_compute in ("<<<M1264>>>" ++ check (runes_of_ascii "packet B {
-    u8 a,
-}
-root packet P {
-    u8 K,
-    match K as Body {
-        1 : B,
-    },
-    u16 L @lengthOf(Body),
-}
+    k
+    as
+
+    n
+    { [
+1	, 
+22, 
+""c c""
+    ,
+4,
+
+    5
+, ""f"" 
+,7
+,	8]	: B
+    2 :C  }
+    ,  }")).
+Eval vm_compute in ("<<<M343>>>" ++ check (runes_of_ascii "packet Header { repeat char[  0123456789 ]BodyLength`" ++ [28040; 24687; 31867; 22411]%N ++ runes_of_ascii "`/// triple
+, zchar[ 3
+    ] chars
+    ,// trailing space 
+A, } //")).
+Eval vm_compute in ("<<<M1144>>>" ++ check (runes_of_ascii "MetaData
+// c
+leftPad { chars MetaDataX , } packet repeatCount { char[ 255 ] uint8x `" ++ [233]%N ++ runes_of_ascii "` , } MetaData pack { As Foo , }")).
+Eval vm_compute in ("<<<M1176>>>" ++ check (runes_of_ascii "MetaData leftPad { chars MetaDataX , } packet repeatCount { char[ 255 ] uint8x `" ++ [233]%N ++ runes_of_ascii "` , }
+// c
+MetaData pack { As Foo , }")).
+Eval vm_compute in ("<<<M300>>>" ++ check (runes_of_ascii "packet
+Logon  { repeat u {zchar { zchar[ 007
+] a1
+`` ,  x_y_z@calculatedFrom(
+//
+// " ++ [128512]%N ++ runes_of_ascii " emoji
+""{,}""
+    ), }, } ,}
 ")).
-Eval vm_compute in ("<<<M1156>>>" ++ check (runes_of_ascii "MetaData leftPad { chars MetaDataX , }
-// c
-packet repeatCount { char[ 255 ] uint8x `" ++ [233]%N ++ runes_of_ascii "` , } MetaData pack { As Foo , }")).
-Eval vm_compute in ("<<<M1188>>>" ++ check (runes_of_ascii "MetaData leftPad { chars MetaDataX , } packet repeatCount { char[ 255 ] uint8x `" ++ [233]%N ++ runes_of_ascii "` , } MetaData pack { As Foo ,
-// c
-}")).
-Eval vm_compute in ("<<<M914>>>" ++ check (runes_of_ascii "packet A {
+Eval vm_compute in ("<<<M911>>>" ++ check (runes_of_ascii "packet A {
   match k as n {
-    [""a"", ""bb"", 007, ""d"", ""e"", 66, ""g"", ""h"", 9, ""j"", ""k"", 12] : B,
+    [""a"", 22, ""c c"", 4, ""e"", 66, ""g"", 8, ""i"", 10, ""k"", 12] : B
     2 : C
   },
 }")).
-Eval vm_compute in ("<<<M24>>>" ++ check (runes_of_ascii "options { metadata
-= '\x00' ;
-    u128
-=
-    ""CRC32"" ; charz = ' 'options1 = 00 ; }
-packet string_ { }
-")).
-Eval vm_compute in ("<<<M1396>>>" ++ check (runes_of_ascii "packet _x {
-}// trailing space 
-
-options {
-    repeatCount = 42;
-    Pad = true;
-    x_y_z = 65535;
+Eval vm_compute in ("<<<M913>>>" ++ check (runes_of_ascii "packet A {
+  match k as n {
+    [1, 22, ""c c"", 4, 5, ""f"", 7, 8, ""i"", 10, 11, ""l""] : B
+    2 : C
+  },
 }")).
-Eval vm_compute in ("<<<M258>>>" ++ check (runes_of_ascii "packet
-    metadata{ u32 // `tick` ""quote"" 'q'
-Packet `say ""hi""`
-,
-    // trailing space 
-    }")).
-Eval vm_compute in ("<<<M1498>>>" ++ check (runes_of_ascii "MetaData M {
-    u8 x `a
-            b
-          c`,
-    T t `a
-            b
-          c`,
+Eval vm_compute in ("<<<M875>>>" ++ check (runes_of_ascii "packet A {
+  match k as n {
+    [""a"", ""bb"", 007, ""d"", ""e"", 66, ""g"", ""h"", 9] : B,
+    2 : C
+  },
 }")).
-Eval vm_compute in ("<<<M388>>>" ++ check (runes_of_ascii "root packet SimpleMessage {
+Eval vm_compute in ("<<<M389>>>" ++ check (runes_of_ascii "root packet SimpleMessage {
     uint16 MsgType `" ++ [28040; 24687; 31867; 22411]%N ++ runes_of_ascii "`,
     string JsonBody `Json" ++ [23383; 31526; 20018; 28040; 24687; 20307]%N ++ runes_of_ascii "`,
 }")).
-Eval vm_compute in ("<<<M878>>>" ++ check (runes_of_ascii "packet A {
+Eval vm_compute in ("<<<M629>>>" ++ check (runes_of_ascii "
+packet
+    asx {match u128 as lengthOf
+{
+//	t
+// `tick` ""quote"" 'q'
+255 : x ,
+    } ~ ,	}")).
+Eval vm_compute in ("<<<M599>>>" ++ check (runes_of_ascii "
+packet
+    asx {match u128 as lengthOf
+{
+//	t
+// `tick` ""quote"" 'q'
+255 x : ,
+    } ,	}")).
+Eval vm_compute in ("<<<M1307>>>" ++ check (runes_of_ascii "  packet
+orderItem 
+{
+	u8
+    a
+    , 
+}root
+packet
+newOrder{ orderItem	, 
+u8
+x
+	,
+}")).
+Eval vm_compute in ("<<<M1847>>>" ++ check (runes_of_ascii "MetaData repeatCount {
+    char[42] MetaDataX,
+    // @lengthOf(
+    zchar[0] asx,
+}")).
+Eval vm_compute in ("<<<M616>>>" ++ check (runes_of_ascii "
+packet
+    asx {match u128 as lengthOf
+{
+//	t
+// `tick` ""quote"" 'q'
+255 : x ,")).
+Eval vm_compute in ("<<<M606>>>" ++ check (runes_of_ascii "
+packet
+    asx {match u128 as lengthOf
+{
+//	t
+// `tick` ""quote"" 'q'
+255 :")).
+Eval vm_compute in ("<<<M790>>>" ++ check (runes_of_ascii "packet A {
   match k as n {
-    [1, 22, 007, 4, 5, 66, 7, 8, 9, 10] : B,
+    [""a"", ""bb"", ""c c""] : B
     2 : C
   },
 }")).
-Eval vm_compute in ("<<<M829>>>" ++ check (runes_of_ascii "packet A {
-  match k as n {
-    [""a"", ""bb"", ""c c"", ""d"", ""e"", ""f""] : B
-    2 : C
-  },
-}")).
-Eval vm_compute in ("<<<M844>>>" ++ check (runes_of_ascii "packet A {
-  match k as n {
-    [1, ""bb"", 007, ""d"", 5, ""f"", 7] : B
-    2 : C
-  },
-}")).
-Eval vm_compute in ("<<<M916>>>" ++ check (runes_of_ascii "packet A { Inner { match k as n { [1,22,007,4,5,66,7,8,9,10,11,12] : B, }, }, }")).
-Eval vm_compute in ("<<<M818>>>" ++ check (runes_of_ascii "packet A {
-  match k as n {
-    [1, ""bb"", 007, ""d"", 5] : B
-    2 : C
-  },
-}")).
-Eval vm_compute in ("<<<M1606>>>" ++ check (runes_of_ascii "MetaData x_y_z {
-    i8i8 u8x,
-    string uint8x `crlf
-        line`,
-}")).
-Eval vm_compute in ("<<<M792>>>" ++ check (runes_of_ascii "packet A {
-  match k as n {
-    [1, ""bb"", 007] : B
-    2 : C
-  },
-}")).
-Eval vm_compute in ("<<<M1497>>>" ++ check (runes_of_ascii "// a // b
-packet Pad {
-    char[] Z9_ @lengthOf(Pad) `{ , }`,
-}")).
-Eval vm_compute in ("<<<M1255>>>" ++ check (runes_of_ascii "root packet P {
-    hdr {
-        u8 a,
-    },
-    u8 x,
+Eval vm_compute in ("<<<M1280>>>" ++ check (runes_of_ascii "root packet P {
+    u16 a,
+    u32 Sum @calculatedFrom(""CRC32""),
 }
 ")).
-Eval vm_compute in ("<<<M1833>>>" ++ check (runes_of_ascii "options {
+Eval vm_compute in ("<<<M1126>>>" ++ check (runes_of_ascii "// top
+MetaData
+    // c0
+u
+    // c1
+{
+    // c2
+}
+    // c3
+")).
+Eval vm_compute in ("<<<M1598>>>" ++ check (runes_of_ascii "options {
+    a = ""x\
+        y"";
+    b = ""x\
+        y""
+}")).
+Eval vm_compute in ("<<<M1403>>>" ++ check (runes_of_ascii "options {
     Logon = """ ++ [28040; 24687]%N ++ runes_of_ascii """;
     BodyLength = false;
 }")).
-Eval vm_compute in ("<<<M777>>>" ++ check (runes_of_ascii "packet A { Inner { match k as n { [1] : B, }, }, }")).
-Eval vm_compute in ("<<<M1221>>>" ++ check (runes_of_ascii "// top
-packet // c0
-x // c1
-{ // c2
-} // c3
+Eval vm_compute in ("<<<M332>>>" ++ check (runes_of_ascii "MetaData o
+    { } MetaData T  {
+    } options { }")).
+Eval vm_compute in ("<<<M1286>>>" ++ check (runes_of_ascii "
+
+  root
+    packet P{ 
+string
+	s
+
+    , }
 ")).
-Eval vm_compute in ("<<<M1578>>>" ++ check (runes_of_ascii "  packet
-	A 
-{ u8 x `d" ++ [65279]%N ++ runes_of_ascii "`
-	, 	 // c" ++ [65279]%N ++ runes_of_ascii "
-		}")).
-Eval vm_compute in ("<<<M1882>>>" ++ check (runes_of_ascii "root packet A {
-    u8 x `
-    `,
-}")).
-Eval vm_compute in ("<<<M1664>>>" ++ check (runes_of_ascii "root packet P {
-    string s,
-}")).
-Eval vm_compute in ("<<<M83>>>" ++ check (runes_of_ascii "
-options{ options1 =	7 ;
-}
-")).
-Eval vm_compute in ("<<<M1846>>>" ++ check (runes_of_ascii "packet A {
-}// a// b// c")).
-Eval vm_compute in ("<<<M1106>>>" ++ check (runes_of_ascii "MetaData
+Eval vm_compute in ("<<<M337>>>" ++ check (runes_of_ascii "//	t
+options
 // c
-tag { }")).
-Eval vm_compute in ("<<<M1548>>>" ++ check (runes_of_ascii "// c
-MetaData u {
+// " ++ [128512]%N ++ runes_of_ascii " emoji
+{
+    } // c")).
+Eval vm_compute in ("<<<M1068>>>" ++ check (runes_of_ascii "options { a = 1 // c b = 2; // d}")).
+Eval vm_compute in ("<<<M1413>>>" ++ check (runes_of_ascii "root
+	packet A{  u8
+	x	`
+`
+,
+}
+
+")).
+Eval vm_compute in ("<<<M1033>>>" ++ check (runes_of_ascii "packet A {
+ u8 x `d" ++ [11]%N ++ runes_of_ascii "`, // c" ++ [11]%N ++ runes_of_ascii "
 }")).
-Eval vm_compute in ("<<<M1037>>>" ++ check (runes_of_ascii "// c" ++ [12]%N ++ runes_of_ascii "
-packet A {
+Eval vm_compute in ("<<<M1852>>>" ++ check (runes_of_ascii "  packet 
+A {  }
+    // c" ++ [12]%N)).
+Eval vm_compute in ("<<<M1512>>>" ++ check (runes_of_ascii "root packet falsey {
 }")).
-Eval vm_compute in ("<<<M1029>>>" ++ check (runes_of_ascii "packet A {
-}// c" ++ [11]%N)).
-Eval vm_compute in ("<<<M1804>>>" ++ check (runes_of_ascii "MetaData u {
+Eval vm_compute in ("<<<M1651>>>" ++ check (runes_of_ascii "  // only a comment
+")).
+Eval vm_compute in ("<<<M996>>>" ++ check (runes_of_ascii "packet A {
+}
+// c" ++ [5760]%N)).
+Eval vm_compute in ("<<<M1666>>>" ++ check (runes_of_ascii "// trailing space ")).
+Eval vm_compute in ("<<<M1925>>>" ++ check (runes_of_ascii "packet falsey {
 }")).
-Eval vm_compute in ("<<<M758>>>" ++ check (runes_of_ascii "LE]u'")).
-Eval vm_compute in ("<<<M728>>>" ++ check (runes_of_ascii "		")).
+Eval vm_compute in ("<<<M1447>>>" ++ check (runes_of_ascii "packet x {
+}")).
+Eval vm_compute in ("<<<M1025>>>" ++ check (runes_of_ascii "// c" ++ [8287]%N)).
